@@ -131,7 +131,7 @@ fn read_json(p: &Path) -> Option<Value> {
     serde_json::from_slice(&std::fs::read(p).ok()?).ok()
 }
 
-fn signed_by(doc: &Value, k: &K) -> bool {
+pub fn signed_by(doc: &Value, k: &K) -> bool {
     use aws_lc_rs::signature::{KeyPair, UnparsedPublicKey, ED25519};
     let msg = canon(&doc["signed"]);
     let pk = match &k.kp {
